@@ -127,12 +127,16 @@ def handler_post(extra=(), hs_frame=True):
     ("C02:only_complete_messages_delivered", "deliveries_complete(old(out).app_actions@) ==> deliveries_complete(final(out).app_actions@)"),
     ("C06:output_only_appended", "extends(old(out).app_actions@, final(out).app_actions@)"),
     ("C04:leftover_bytes_drained_in_same_call", "final(self).drained()"),
+    # byte conservation: the engine never loses or invents a byte of the peer's stream -- whatever has not been handed to the
+    # greeting parser / framer (removed from the FRONT of the accumulator) is still in the accumulator, in order
+    ("C04:no_byte_of_the_peers_stream_is_lost_or_invented", "final(self).network_read_accumulator.stream() == old(self).network_read_accumulator.stream()"),
   ] + list(extra)
 
 HS_FRAME = ("C05:handshake_flags_frame", "final(self).revision_sent == old(self).revision_sent && final(self).version == old(self).version && final(self).is_server == old(self).is_server && final(self).v2_peer_socket_type == old(self).v2_peer_socket_type")
 
 PD_INV_FRAME = ("self.version == old(self).version && self.config == old(self).config && self.framer.origin_kind() == old(self).framer.origin_kind() "
-                "&& self.framer.origin_complete() == old(self).framer.origin_complete() && self.framer.origin_role_server() == old(self).framer.origin_role_server()")
+                "&& self.framer.origin_complete() == old(self).framer.origin_complete() && self.framer.origin_role_server() == old(self).framer.origin_role_server() "
+                "&& self.network_read_accumulator.stream() == old(self).network_read_accumulator.stream()")
 
 parts = [
   Raw("prelude/core.rs"),
@@ -268,7 +272,7 @@ parts = [
        ("R8", re.compile(r"ready_cmd\s*\.properties\s*\.get\(\"Identity\"\)\s*\.map\(\|v\| Blob::from\(v\.clone\(\)\)\)", re.S), "verif_ready_identity(&ready_cmd)", 1),
      ],
      loops={0: {
-       "invariant": ["n_gated(old(out).app_actions@) > 0 ==> old(self).auth_ok()", "old(self).auth_ok() ==> self.auth_ok()", "self.revision_sent == old(self).revision_sent && self.version == old(self).version && self.is_server == old(self).is_server && self.v2_peer_socket_type == old(self).v2_peer_socket_type", "self.inv()", "self.phase == ZmtpPhase::Ready", "self.config == old(self).config", "out.app_actions@ == old(out).app_actions@"],
+       "invariant": ["self.network_read_accumulator.stream() == old(self).network_read_accumulator.stream()", "n_gated(old(out).app_actions@) > 0 ==> old(self).auth_ok()", "old(self).auth_ok() ==> self.auth_ok()", "self.revision_sent == old(self).revision_sent && self.version == old(self).version && self.is_server == old(self).is_server && self.v2_peer_socket_type == old(self).v2_peer_socket_type", "self.inv()", "self.phase == ZmtpPhase::Ready", "self.config == old(self).config", "out.app_actions@ == old(out).app_actions@"],
        "decreases": "self.framer.budget(self.network_read_accumulator@)"}},
      hints=[("bc", "@loop_start:0", 0, "", "broadcast use lemma_delivered_push, lemma_sends_push, lemma_n_gated_push;"),
             # C05 known finding: the READY handler reports completion without validating the peer's Socket-Type
@@ -303,7 +307,7 @@ parts = [
      ensures=handler_post(),
      extra=[("R2", re.compile(r"self\s*\.security_mechanism\s*\.error_reason\(\)\s*\.unwrap_or\(\"unknown\"\)\s*\.to_owned\(\)", re.S), "verif_fmt()", 1)],
      loops={0: {
-       "invariant": ["n_gated(old(out).app_actions@) > 0 ==> old(self).auth_ok()", "old(self).auth_ok() ==> self.auth_ok()", "self.revision_sent == old(self).revision_sent && self.version == old(self).version && self.is_server == old(self).is_server && self.v2_peer_socket_type == old(self).v2_peer_socket_type", "self.inv()", "self.phase == ZmtpPhase::Security", "self.config == old(self).config",
+       "invariant": ["self.network_read_accumulator.stream() == old(self).network_read_accumulator.stream()", "n_gated(old(out).app_actions@) > 0 ==> old(self).auth_ok()", "old(self).auth_ok() ==> self.auth_ok()", "self.revision_sent == old(self).revision_sent && self.version == old(self).version && self.is_server == old(self).is_server && self.v2_peer_socket_type == old(self).v2_peer_socket_type", "self.inv()", "self.phase == ZmtpPhase::Security", "self.config == old(self).config",
                      "extends(old(out).app_actions@, out.app_actions@)",
                      "n_gated(out.app_actions@) == n_gated(old(out).app_actions@)",
                      "deliveries_complete(old(out).app_actions@) ==> deliveries_complete(out.app_actions@)"],
@@ -350,6 +354,7 @@ parts = [
        ("C06:handshake_complete_and_deliveries_only_when_authenticated", "n_gated(r.app_actions@) > 0 ==> final(self).auth_ok()"),
        ("C02:only_complete_messages_delivered", "deliveries_complete(r.app_actions@)"),
        ("C04:leftover_bytes_drained_in_same_call", "final(self).drained()"),
+       ("C04:the_accumulator_stream_is_the_old_one_followed_by_exactly_the_new_bytes", "old(self).phase != ZmtpPhase::Closed ==> final(self).network_read_accumulator.stream() == old(self).network_read_accumulator.stream() + data@"),
        ("C07:closed_stays_closed", "old(self).phase == ZmtpPhase::Closed ==> final(self).phase == ZmtpPhase::Closed && r.app_actions@.len() == 0 && r.net_actions@.len() == 0"),
      ],
      extra=[("R6", "self.network_read_accumulator.extend_from_slice(&data)", "self.network_read_accumulator.extend_from_slice(data.as_slice())", 1)],
@@ -364,6 +369,13 @@ parts = [
                      "&& final(self).partial_batch == old(self).partial_batch && final(self).pending_framer == old(self).pending_framer && final(self).security_mechanism == old(self).security_mechanism"),
      ],
      hints=[("bc", "@fn_start", 0, "", "broadcast use lemma_delivered_push, lemma_sends_push, lemma_n_gated_push;")]),
+  # called by the session after every completed egress write: outbound traffic refreshes the idle clock and NOTHING else -- in particular
+  # the PONG deadline keeps running from the PING's own time stamp ("closed if no PONG arrives within HEARTBEAT_TIMEOUT of that PING")
+  Fn(EN, "record_activity", impl=IMPL, emit_impl="impl ZmtpEngine", safety_props=["C19"], ret=None,
+     ensures=[("C19:outbound_activity_never_moves_the_pong_deadline",
+               "final(self).last_ping_sent_time == old(self).last_ping_sent_time && final(self).waiting_for_pong == old(self).waiting_for_pong && final(self).config == old(self).config"),
+              ("C06+C19:frame", "final(self).phase == old(self).phase && final(self).version == old(self).version && final(self).framer == old(self).framer && final(self).network_read_accumulator == old(self).network_read_accumulator "
+                            "&& final(self).partial_batch == old(self).partial_batch && final(self).pending_framer == old(self).pending_framer && final(self).security_mechanism == old(self).security_mechanism")]),
   Fn(EN, "on_tick", impl=IMPL, emit_impl="impl ZmtpEngine", safety_props=["C07", "C19"],
      ensures=[
        ("C19:no_heartbeat_outside_data_or_on_v2",
